@@ -675,3 +675,55 @@ PRODUCT_WITNESSES = [
                      [0.68505859375, 0.0, 0.3125, 0.00244140625, 2.0 ** -31, 1 - 2.0 ** -31 - 2.0 ** -45, 2.0 ** -45]],
      "u depends on the order in which the values of the second domain are listed"),
 ]
+
+
+# ---------------------------------------------------------------- products with a (nearly) vacuous factor (repair R14)
+_PRODCLAMP_HOT = None
+
+
+def prodclamp_hot(fmt, families=("M",)):
+    """operand tuples on which the unlabelled products panicked with a belief-mass residue below -eps before the joint masses were
+    clamped (gen/corpus/prodclamp_hot.txt, enumerated by tools/scan/prodclamp_hot.rs against the un-repaired crate: 1e-4 .. 3e-4
+    of such products); replayed for every container family given"""
+    global _PRODCLAMP_HOT
+    import os
+    if _PRODCLAMP_HOT is None:
+        fp = os.path.join(os.path.dirname(os.path.dirname(os.path.abspath(__file__))), "gen", "corpus", "prodclamp_hot.txt")
+        _PRODCLAMP_HOT = [ln.strip() for ln in open(fp) if ln.strip() and not ln.startswith("#")]
+    out = []
+    for ln in _PRODCLAMP_HOT:
+        t = ln.split(" ")
+        if t[1] != fmt:
+            continue
+        for fam in families:
+            out.append(" ".join(t[:2] + [fam + "." + ("o" if fam == "M" else "r")] + t[3:]))
+    return out
+
+
+def vacuous_factor_product(rng, fmt):
+    """(op, ns, scalars): product of 2 or 3 factors of which at least one is vacuous or nearly vacuous with zero belief on its
+    dominant base-rate element, the others arbitrary floats -- the minimising cell then has an exactly-zero joint mass whose
+    computed value p - a*u is a residue of either sign"""
+    k = rng.choice([2, 2, 3])
+    ns = [rng.choice([2, 3]) for _ in range(k)]
+    shapes = [rng.choice([0, 1, 2]) for _ in range(k)]
+    if all(sh == 0 for sh in shapes):
+        shapes[rng.randrange(k)] = rng.choice([1, 2])
+    ws = []
+    for n, sh in zip(ns, shapes):
+        av = [rng.random() + 1e-3 for _ in range(n)]
+        if sh == 2:
+            av[n - 1] += 4 * sum(av)
+        sa = sum(av)
+        a = [round_fmt(fmt, v / sa) for v in av[:-1]]
+        a.append(round_fmt(fmt, 1.0 - sum(a)))
+        if sh == 0:
+            b, u = float_simplex(rng, fmt, n)
+        elif sh == 1:
+            b, u = [0.0] * n, 1.0
+        else:
+            e = round_fmt(fmt, rng.random() * 0.1)
+            b = [e] + [0.0] * (n - 1)
+            u = round_fmt(fmt, 1.0 - e)
+        ws += b + [u] + a
+    return ("prod2" if k == 2 else "prod3"), ns, ws
